@@ -500,3 +500,678 @@ Proof.
   - unfold s_collect. rewrite Hp. constructor; [exact G|].
     apply IH. cbn [st_vals]. destruct (resets c); [apply grouped_nil | exact G].
 Qed.
+
+(** ** Readable consequences of [placed] *)
+Lemma filter_map_comm {A B} (g : A -> B) (p : B -> bool) (l : list A) :
+  filter p (map g l) = map g (filter (fun x => p (g x)) l).
+Proof. induction l as [|x l IH]; cbn; [reflexivity|]. destruct (p (g x)); cbn; now rewrite IH. Qed.
+
+Lemma vals_at_routed c w k :
+  vals_at k (routed c w) =
+  map snd (filter (fun p => aset_eqb (dest (s_limit c) (map fst (filtered c w)) (fst p)) k) (filtered c w)).
+Proof. unfold vals_at, routed. rewrite filter_map_comm, map_map. reflexivity. Qed.
+
+Lemma expected_at_opt c w k : expected_at c w k = opt_summ (s_kind c) (vals_at k (routed c w)).
+Proof. unfold expected_at, opt_summ. now destruct (vals_at k (routed c w)). Qed.
+
+Lemma filter_nonempty {A} (p : A -> bool) l x : In x l -> p x = true -> filter p l <> [].
+Proof. intros I P E. assert (In x (filter p l)) by (apply filter_In; auto). rewrite E in H. contradiction. Qed.
+
+Lemma placed_keep_identity c w pts : placed c w pts -> keep_identity c w pts.
+Proof.
+  intros [ND P]. unfold keep_identity. cbn zeta.
+  set (W := map fst (filtered c w)). set (K := kept (s_limit c) W).
+  split; [|split].
+  - intros a Ha Hno. rewrite P, expected_at_opt, vals_at_routed. fold W.
+    assert (E : filter (fun p => aset_eqb (dest (s_limit c) W (fst p)) a) (filtered c w)
+                = filter (fun p => aset_eqb (fst p) a) (filtered c w)).
+    { apply filter_ext_in. intros p Hp. unfold dest. fold K.
+      destruct (amem (fst p) K) eqn:Ek; [reflexivity|].
+      apply amem_not_In in Ek.
+      transitivity false; [apply aset_eqb_neq; congruence | symmetry; apply aset_eqb_neq; intro; subst; contradiction]. }
+    rewrite E. unfold own_vals, opt_summ.
+    assert (NE : map snd (filter (fun p => aset_eqb (fst p) a) (filtered c w)) <> []).
+    { apply kept_In in Ha. unfold W in Ha. apply in_map_iff in Ha as [q [Hq1 Hq2]].
+      intro Z. apply map_eq_nil in Z. revert Z. apply (filter_nonempty _ _ q Hq2). subst a. apply aset_eqb_refl. }
+    destruct (map snd (filter (fun p => aset_eqb (fst p) a) (filtered c w))); [contradiction | reflexivity].
+  - intros k Hk. destruct (lookup k pts) eqn:El; [|apply lookup_None in El; contradiction].
+    rewrite P, expected_at_opt, vals_at_routed in El. fold W in El.
+    destruct (filter (fun p => aset_eqb (dest (s_limit c) W (fst p)) k) (filtered c w)) as [|q r] eqn:Ef; [discriminate|].
+    assert (Hp : In q (q :: r)) by now left. rewrite <- Ef in Hp. apply filter_In in Hp as [Hp1 Hp2].
+    apply aset_eqb_eq in Hp2. unfold dest in Hp2. fold K in Hp2.
+    destruct (amem (fst q) K) eqn:Ek; [left; apply amem_In in Ek; now subst | now right].
+  - rewrite P, expected_at_opt, vals_at_routed. fold W. unfold overflow_vals. cbn zeta. fold W. fold K.
+    f_equal. f_equal. apply filter_ext. intro p. unfold dest. fold K.
+    destruct (amem (fst p) K); cbn [negb]; [now rewrite orb_false_r | rewrite orb_true_r; apply aset_eqb_refl].
+Qed.
+
+Lemma placed_filter_merged c w pts : s_limit c = 0 -> placed c w pts -> filter_merged c w pts.
+Proof.
+  intros L0 [ND P]. split; [exact ND|]. intro k.
+  rewrite P, expected_at_opt, vals_at_routed. unfold own_vals. f_equal. f_equal.
+  apply filter_ext_in. intros p Hp. f_equal. apply dest_kept. rewrite L0. unfold kept. cbn.
+  apply dedup_In. now apply in_map.
+Qed.
+
+(** ** Top-level statements for one aggregator started empty *)
+Lemma stream_at_most c h : 1 <= s_limit c ->
+  Forall (fun pts => at_most (s_limit c) pts) (s_run c h s_empty).
+Proof.
+  intro HL. eapply Forall_impl; [|apply (s_run_at_most c HL h s_empty), keys_inv_nil].
+  intros pts H _. exact H.
+Qed.
+
+Lemma stream_placed c h : is_presum_delta c = false ->
+  Forall2 (fun pts w => placed c w pts) (s_run c h s_empty) (windows c h).
+Proof. intro Hp. apply s_run_placed; [exact Hp | apply grouped_nil]. Qed.
+
+Lemma Forall2_impl {A B} (P Q : A -> B -> Prop) l1 l2 :
+  (forall a b, P a b -> Q a b) -> Forall2 P l1 l2 -> Forall2 Q l1 l2.
+Proof. intros H F. induction F; constructor; auto. Qed.
+
+Lemma stream_keep_identity c h : is_presum_delta c = false ->
+  Forall2 (fun pts w => keep_identity c w pts) (s_run c h s_empty) (windows c h).
+Proof.
+  intro Hp. eapply Forall2_impl; [|apply stream_placed, Hp]. intros; now apply placed_keep_identity.
+Qed.
+
+Lemma stream_filter_merged c h : is_presum_delta c = false -> s_limit c = 0 ->
+  Forall2 (fun pts w => filter_merged c w pts) (s_run c h s_empty) (windows c h).
+Proof.
+  intros Hp L0. eapply Forall2_impl; [|apply stream_placed, Hp]. intros; now apply placed_filter_merged.
+Qed.
+
+Lemma stream_sum_conserved c h :
+  sums_values (s_kind c) = true -> is_presum_delta c = false ->
+  Forall2 (fun pts w => sum_conserved w pts) (s_run c h s_empty) (windows c h).
+Proof. intros Hs Hp. now apply s_run_sum_conserved. Qed.
+
+Lemma stream_count_conserved c h :
+  counts_values (s_kind c) = true ->
+  Forall2 (fun pts w => count_conserved w pts) (s_run c h s_empty) (windows c h).
+Proof. intros Hs. now apply s_run_count_conserved. Qed.
+
+(** * Views and the pipeline *)
+Lemma ikind_eqb_eq a b : ikind_eqb a b = true <-> a = b.
+Proof. destruct a, b; cbn; split; intro H; try reflexivity; try discriminate. Qed.
+
+Lemma sid_eqb_eq a b : sid_eqb a b = true <-> a = b.
+Proof.
+  destruct a as [n d u k f], b as [n' d' u' k' f']. unfold sid_eqb. cbn [si_name si_desc si_unit si_kind si_float].
+  rewrite !andb_true_iff, !bytes_eqb_eq, ikind_eqb_eq, Bool.eqb_true_iff.
+  split; [intros [[[[-> ->] ->] ->] ->]; reflexivity | intro H; inversion H; auto 10].
+Qed.
+
+Lemma sid_eqb_refl a : sid_eqb a a = true.
+Proof. now apply sid_eqb_eq. Qed.
+
+Lemma nmem_In j l : nmem j l = true <-> In j l.
+Proof.
+  induction l as [|x l IH]; cbn; [split; [discriminate | tauto]|].
+  rewrite orb_true_iff, IH, Nat.eqb_eq. split; intros [H|H]; auto.
+Qed.
+
+Lemma nmem_not_In j l : nmem j l = false <-> ~ In j l.
+Proof.
+  split; intro H.
+  - intro I. apply nmem_In in I. congruence.
+  - destruct (nmem j l) eqn:E; [|reflexivity]. apply nmem_In in E. contradiction.
+Qed.
+
+(** ** No duplication: an instrument never holds the same aggregator twice *)
+Lemma insert_views_nodup vs i : forall st seen m e st' seen' m' e',
+  insert_views vs i st seen m e = (st', seen', m', e') -> NoDup seen -> NoDup seen'.
+Proof.
+  induction vs as [|v vs IH]; intros st seen m e st' seen' m' e' H ND; cbn [insert_views] in H.
+  - now inversion H; subst.
+  - destruct (matches v i); [|eapply IH; eauto].
+    destruct (cached_aggregator st i (mask v i)) as [[st1 o] e1].
+    eapply IH; [exact H|].
+    destruct o as [j|]; [|exact ND].
+    destruct (nmem j seen) eqn:E; [exact ND|]. apply nodup_snoc; [exact ND | now apply nmem_not_In].
+Qed.
+
+Lemma insert_raw_nodup vs i st st' feeds err :
+  insert_raw vs i st = (st', feeds, err) -> NoDup feeds.
+Proof.
+  unfold insert_raw. destruct (insert_views vs i st [] false false) as [[[st1 seen] m] e] eqn:E.
+  pose proof (insert_views_nodup _ _ _ _ _ _ _ _ _ _ E (NoDup_nil _)) as ND.
+  destruct m.
+  - intro H; inversion H; subst; exact ND.
+  - destruct (cached_aggregator st1 i (default_req i)) as [[st2 o] e2]. intro H; inversion H; subst.
+    destruct o; constructor; [intros [] | constructor].
+Qed.
+
+Lemma insert_nodup vs i st : NoDup (snd (insert vs i st)).
+Proof.
+  unfold insert. destruct (insert_raw vs i st) as [[st' feeds] err] eqn:E. cbn [snd].
+  destruct (observable (i_kind i) && err); [constructor | eapply insert_raw_nodup; eauto].
+Qed.
+
+Lemma build_from_nodup vs is : forall st, Forall (@NoDup nat) (snd (build_from vs is st)).
+Proof.
+  induction is as [|i is IH]; intro st; cbn [build_from]; [constructor|].
+  pose proof (insert_nodup vs i st) as ND.
+  destruct (insert vs i st) as [st' f]. specialize (IH st').
+  destruct (build_from vs is st') as [st'' fs]. cbn [snd] in *. now constructor.
+Qed.
+
+Lemma build_feeds_nodup vs is : Forall (@NoDup nat) (snd (build vs is)).
+Proof.
+  unfold build. pose proof (build_from_nodup vs is p_empty) as H.
+  destruct (build_from vs is p_empty) as [st fs]. exact H.
+Qed.
+
+(** ** Exactly once: a measurement updates each aggregator of the instrument once, and no other *)
+Lemma nth_error_upd {A} (f : A -> A) j : forall (l : list A) j',
+  nth_error (upd j f l) j' = if Nat.eqb j' j then option_map f (nth_error l j') else nth_error l j'.
+Proof.
+  induction j as [|j IH]; intros [|x l] [|j']; cbn; try reflexivity.
+  - now destruct (Nat.eqb j' j).
+  - apply IH.
+Qed.
+
+Lemma dispatch_once cfgs a v : forall feeds sts j, NoDup feeds ->
+  nth_error (dispatch cfgs feeds a v sts) j =
+  if nmem j feeds then option_map (s_measure (nth j cfgs cfg_dflt) a v) (nth_error sts j) else nth_error sts j.
+Proof.
+  unfold dispatch. induction feeds as [|x feeds IH]; intros sts j ND; cbn [fold_left nmem]; [reflexivity|].
+  inversion ND as [|? ? Hx ND']; subst. rewrite (IH _ _ ND'), nth_error_upd.
+  destruct (Nat.eqb j x) eqn:E; cbn [orb].
+  - apply Nat.eqb_eq in E. subst x. apply nmem_not_In in Hx. now rewrite Hx.
+  - reflexivity.
+Qed.
+
+Lemma collect_all_nth cfgs : forall sts j, length sts = length cfgs ->
+  nth_error (fst (collect_all cfgs sts)) j =
+    option_map (fun s => fst (s_collect (nth j cfgs cfg_dflt) s)) (nth_error sts j) /\
+  nth_error (snd (collect_all cfgs sts)) j =
+    option_map (fun s => snd (s_collect (nth j cfgs cfg_dflt) s)) (nth_error sts j).
+Proof.
+  induction cfgs as [|c cfgs IH]; intros [|s sts] j HL; cbn [collect_all]; try discriminate.
+  - destruct j; cbn; auto.
+  - cbn [length] in HL. injection HL as HL.
+    specialize (IH sts). destruct (s_collect c s) as [out s'] eqn:Ec.
+    destruct (collect_all cfgs sts) as [outs sr'] eqn:Ea. cbn [fst snd] in *.
+    destruct j as [|j]; cbn [nth_error nth option_map]; [rewrite Ec; auto | now apply IH].
+Qed.
+
+Lemma collect_all_length cfgs : forall sts, length sts = length cfgs ->
+  length (snd (collect_all cfgs sts)) = length cfgs.
+Proof.
+  induction cfgs as [|c cfgs IH]; intros [|s sts] HL; cbn [collect_all]; try discriminate; [reflexivity|].
+  cbn [length] in HL. injection HL as HL. specialize (IH sts HL).
+  destruct (s_collect c s) as [out s']. destruct (collect_all cfgs sts) as [outs sr']. cbn [snd length] in *. now f_equal.
+Qed.
+
+Lemma upd_length {A} (f : A -> A) j : forall l, length (upd j f l) = length l.
+Proof. induction j as [|j IH]; intros [|x l]; cbn; auto. Qed.
+
+Lemma dispatch_length cfgs a v : forall feeds sts, length (dispatch cfgs feeds a v sts) = length sts.
+Proof.
+  unfold dispatch. induction feeds as [|x feeds IH]; intro sts; cbn [fold_left]; [reflexivity|].
+  now rewrite IH, upd_length.
+Qed.
+
+(** The instruments feeding aggregator [j]. *)
+Definition feeders (j : nat) (feeds : list (list nat)) : list nat :=
+  filter (fun i => nmem j (nth i feeds [])) (seq 0 (length feeds)).
+
+Lemma nat_mem_feeders j feeds i : nat_mem i (feeders j feeds) = nmem j (nth i feeds []).
+Proof.
+  unfold nat_mem, feeders.
+  destruct (nmem j (nth i feeds [])) eqn:E.
+  - apply existsb_exists. exists i. split; [|apply Nat.eqb_refl].
+    apply filter_In. split; [|exact E]. apply in_seq.
+    destruct (Nat.lt_ge_cases i (length feeds)) as [H|H]; [lia|].
+    rewrite nth_overflow in E by exact H. discriminate.
+  - destruct (existsb (Nat.eqb i) _) eqn:X; [|reflexivity].
+    apply existsb_exists in X as [x [Hx Hi]]. apply Nat.eqb_eq in Hi. subst x.
+    apply filter_In in Hx as [_ Hx]. congruence.
+Qed.
+
+(** Every aggregator of the pipeline behaves as a single aggregator run on the history
+    made of the measurements of the instruments feeding it, each taken once. *)
+Lemma p_run_projection cfgs feeds j :
+  Forall (@NoDup nat) feeds -> (j < length cfgs)%nat ->
+  forall h sts s, length sts = length cfgs -> nth_error sts j = Some s ->
+  map (fun outs => nth j outs []) (p_run_raw cfgs feeds h sts) =
+  s_run (nth j cfgs cfg_dflt) (project (feeders j feeds) h) s.
+Proof.
+  intros ND Hj h. induction h as [|e h IH]; intros sts s HL Hs; cbn [p_run_raw project map s_run]; [reflexivity|].
+  destruct e as [i a v|].
+  - rewrite nat_mem_feeders.
+    assert (NDi : NoDup (nth i feeds [])).
+    { destruct (Nat.lt_ge_cases i (length feeds)) as [H|H].
+      - eapply Forall_forall; [exact ND | now apply nth_In].
+      - rewrite nth_overflow by exact H. constructor. }
+    pose proof (dispatch_once cfgs a v (nth i feeds []) sts j NDi) as D. rewrite Hs in D.
+    destruct (nmem j (nth i feeds [])); cbn [option_map s_run] in *.
+    + apply IH; [now rewrite dispatch_length | exact D].
+    + apply IH; [now rewrite dispatch_length | exact D].
+  - destruct (collect_all_nth cfgs sts j HL) as [C1 C2]. rewrite Hs in C1, C2. cbn [option_map] in C1, C2.
+    pose proof (collect_all_length cfgs sts HL) as CL.
+    destruct (collect_all cfgs sts) as [outs sts'] eqn:Ea. cbn [fst snd] in *.
+    cbn [map s_run]. destruct (s_collect (nth j cfgs cfg_dflt) s) as [out s'] eqn:Ec. cbn [fst snd] in *.
+    f_equal.
+    + apply nth_error_nth. exact C1.
+    + apply IH; [exact CL | exact C2].
+Qed.
+
+(** ** The aggregator cache: one aggregator per stream identity *)
+Lemma cache_lookup_app id c id' o :
+  cache_lookup id (c ++ [(id', o)]) =
+  match cache_lookup id c with Some r => Some r | None => if sid_eqb id id' then Some o else None end.
+Proof.
+  induction c as [|[id2 r] c IH]; cbn [app cache_lookup]; [reflexivity|].
+  destruct (sid_eqb id id2); [reflexivity | exact IH].
+Qed.
+
+(** Cached indices point into the list of aggregators, and distinct identities have distinct aggregators. *)
+Definition cache_wf (st : pstate) : Prop :=
+  (forall id j, cache_lookup id (ps_cache st) = Some (Some j) -> (j < length (ps_decls st))%nat) /\
+  (forall id1 id2 j, cache_lookup id1 (ps_cache st) = Some (Some j) ->
+                     cache_lookup id2 (ps_cache st) = Some (Some j) -> id1 = id2).
+
+Lemma cache_wf_empty : cache_wf p_empty.
+Proof. split; cbn; intros; discriminate. Qed.
+
+Definition cache_mono (st st' : pstate) : Prop :=
+  (forall id x, cache_lookup id (ps_cache st) = Some x -> cache_lookup id (ps_cache st') = Some x) /\
+  (length (ps_decls st) <= length (ps_decls st'))%nat.
+
+Lemma cache_mono_refl st : cache_mono st st.
+Proof. split; auto. Qed.
+
+Lemma cache_mono_trans a b c : cache_mono a b -> cache_mono b c -> cache_mono a c.
+Proof. intros [A1 A2] [B1 B2]. split; [auto | lia]. Qed.
+
+Lemma cached_aggregator_spec st i r st' o e :
+  cached_aggregator st i r = (st', o, e) ->
+  cache_mono st st' /\
+  (cache_wf st -> cache_wf st') /\
+  (req_compatible i r = false -> st' = st /\ o = None /\ e = true) /\
+  (req_compatible i r = true -> e = false /\ cache_lookup (ident i r) (ps_cache st') = Some o).
+Proof.
+  unfold cached_aggregator. destruct (req_compatible i r) eqn:C; cbn [negb].
+  2:{ intro H; inversion H; subst. split; [apply cache_mono_refl|]. split; [auto|].
+      split; [intros _; auto | discriminate]. }
+  destruct (cache_lookup (ident i r) (ps_cache st)) as [o0|] eqn:CL.
+  { intro H; inversion H; subst. split; [apply cache_mono_refl|]. split; [auto|].
+    split; [discriminate | intros _; split; [reflexivity | exact CL]]. }
+  destruct (req_akind i r) as [ak|] eqn:AK; intro H; inversion H; subst; clear H.
+  - split; [|split; [|split]]; try discriminate.
+    + split; cbn [ps_cache ps_decls].
+      * intros id x Hx. rewrite cache_lookup_app, Hx. reflexivity.
+      * rewrite app_length. lia.
+    + intros [W1 W2]. split; cbn [ps_cache ps_decls].
+      * intros id j. rewrite cache_lookup_app, app_length. cbn [length].
+        destruct (cache_lookup id (ps_cache st)) as [x|] eqn:E.
+        -- intro Hx; inversion Hx; subst. apply W1 in E. lia.
+        -- destruct (sid_eqb id (ident i r)); intro Hx; inversion Hx; subst. lia.
+      * intros id1 id2 j. rewrite !cache_lookup_app.
+        destruct (cache_lookup id1 (ps_cache st)) as [x1|] eqn:E1;
+          destruct (cache_lookup id2 (ps_cache st)) as [x2|] eqn:E2.
+        -- intros H1 H2; inversion H1; inversion H2; subst. eapply W2; eauto.
+        -- destruct (sid_eqb id2 (ident i r)); intros H1 H2; inversion H1; inversion H2; subst.
+           apply W1 in E1. lia.
+        -- destruct (sid_eqb id1 (ident i r)); intros H1 H2; inversion H1; inversion H2; subst.
+           apply W1 in E2. lia.
+        -- destruct (sid_eqb id1 (ident i r)) eqn:S1; destruct (sid_eqb id2 (ident i r)) eqn:S2;
+             intros H1 H2; inversion H1; inversion H2; subst.
+           apply sid_eqb_eq in S1, S2. congruence.
+    + intros _. split; [reflexivity|]. cbn [ps_cache]. now rewrite cache_lookup_app, CL, sid_eqb_refl.
+  - split; [|split; [|split]]; try discriminate.
+    + split; cbn [ps_cache ps_decls]; [|lia].
+      intros id x Hx. rewrite cache_lookup_app, Hx. reflexivity.
+    + intros [W1 W2]. split; cbn [ps_cache ps_decls].
+      * intros id j. rewrite cache_lookup_app.
+        destruct (cache_lookup id (ps_cache st)) as [x|] eqn:E.
+        -- intro Hx; inversion Hx; subst. now apply W1 in E.
+        -- destruct (sid_eqb id (ident i r)); intro Hx; inversion Hx.
+      * intros id1 id2 j. rewrite !cache_lookup_app.
+        destruct (cache_lookup id1 (ps_cache st)) as [x1|] eqn:E1;
+          destruct (cache_lookup id2 (ps_cache st)) as [x2|] eqn:E2.
+        -- intros H1 H2; inversion H1; inversion H2; subst. eapply W2; eauto.
+        -- destruct (sid_eqb id2 (ident i r)); intros H1 H2; inversion H1; inversion H2.
+        -- destruct (sid_eqb id1 (ident i r)); intros H1 H2; inversion H1; inversion H2.
+        -- destruct (sid_eqb id1 (ident i r)); intros H1 H2; inversion H1.
+    + intros _. split; [reflexivity|]. cbn [ps_cache]. now rewrite cache_lookup_app, CL, sid_eqb_refl.
+Qed.
+
+(** ** No loss: every matching (compatible) view's stream is served by an aggregator the
+    instrument feeds, unless that stream identity is dropped *)
+Lemma insert_views_served vs i : forall st seen m e st' seen' m' e',
+  insert_views vs i st seen m e = (st', seen', m', e') ->
+  cache_mono st st' /\ (cache_wf st -> cache_wf st') /\ incl seen seen' /\
+  (m' = true <-> m = true \/ exists v, In v vs /\ matches v i = true) /\
+  forall v, In v vs -> matches v i = true -> req_compatible i (mask v i) = true ->
+    exists o, cache_lookup (ident i (mask v i)) (ps_cache st') = Some o /\
+              forall j, o = Some j -> In j seen'.
+Proof.
+  induction vs as [|v vs IH]; intros st seen m e st' seen' m' e' H; cbn [insert_views] in H.
+  - inversion H; subst. split; [apply cache_mono_refl|]. split; [auto|]. split; [apply incl_refl|]. split.
+    + split; [intro; now left | intros [?|[v [[] _]]]; assumption].
+    + intros v [].
+  - destruct (matches v i) eqn:M.
+    + destruct (cached_aggregator st i (mask v i)) as [[st1 o] e1] eqn:CA.
+      destruct (cached_aggregator_spec _ _ _ _ _ _ CA) as [Mo [Wf [_ Co]]].
+      apply IH in H. destruct H as [Mo' [Wf' [Inc [Mt Sv]]]].
+      split; [eapply cache_mono_trans; eauto|]. split; [auto|].
+      assert (Inc0 : incl seen seen').
+      { intros x Hx. apply Inc. destruct o as [j|]; [|exact Hx].
+        destruct (nmem j seen); [exact Hx | apply in_or_app; now left]. }
+      split; [exact Inc0|]. split.
+      * split; [intros _; right; exists v; split; [now left | exact M] | intros _; apply Mt; now left].
+      * intros v' [->|Hv'] Mv' Cv'; [|now apply Sv].
+        destruct (Co Cv') as [_ CL]. exists o. split; [now apply Mo'|].
+        intros j ->. apply Inc. destruct (nmem j seen) eqn:E; [now apply nmem_In | apply in_or_app; right; now left].
+    + apply IH in H. destruct H as [Mo' [Wf' [Inc [Mt Sv]]]].
+      split; [exact Mo'|]. split; [exact Wf'|]. split; [exact Inc|]. split.
+      * rewrite Mt. split.
+        -- intros [?|[v' [Hv' Mv']]]; [now left | right; exists v'; split; [now right | exact Mv']].
+        -- intros [?|[v' [[->|Hv'] Mv']]]; [now left | congruence | right; now exists v'].
+      * intros v' [->|Hv'] Mv' Cv'; [congruence | now apply Sv].
+Qed.
+
+(** ** Drop aggregation: nothing is created, nothing is fed *)
+Definition not_live (st : pstate) (id : sid) : Prop :=
+  match cache_lookup id (ps_cache st) with Some (Some _) => False | _ => True end.
+
+Definition req_drops (i : inst) (r : sreq) : Prop := resolve_agg (r_agg r) (i_kind i) = ASDrop.
+
+Lemma drop_compatible i r : req_drops i r -> req_compatible i r = true /\ req_akind i r = None.
+Proof. unfold req_drops, req_compatible, req_akind. intros ->. split; reflexivity. Qed.
+
+Lemma cached_aggregator_drop st i r :
+  req_drops i r -> not_live st (ident i r) ->
+  exists st', cached_aggregator st i r = (st', None, false) /\ ps_decls st' = ps_decls st /\
+              forall id, not_live st id -> not_live st' id.
+Proof.
+  intros D NL. destruct (drop_compatible _ _ D) as [C A].
+  unfold cached_aggregator. rewrite C. cbn [negb]. unfold not_live in NL.
+  destruct (cache_lookup (ident i r) (ps_cache st)) as [[j|]|] eqn:CL; [contradiction| |].
+  - exists st. repeat split; auto.
+  - rewrite A. eexists. split; [reflexivity|]. split; [reflexivity|].
+    intros id. unfold not_live. cbn [ps_cache]. rewrite cache_lookup_app.
+    destruct (cache_lookup id (ps_cache st)) as [x|]; [auto|]. now destruct (sid_eqb id (ident i r)).
+Qed.
+
+Lemma insert_views_drop vs i : forall st m,
+  (forall v, In v vs -> matches v i = true -> req_drops i (mask v i) /\ not_live st (ident i (mask v i))) ->
+  exists st' m', insert_views vs i st [] m false = (st', [], m', false) /\ ps_decls st' = ps_decls st /\
+                 (m' = true <-> m = true \/ exists v, In v vs /\ matches v i = true).
+Proof.
+  induction vs as [|v vs IH]; intros st m H; cbn [insert_views].
+  - exists st, m. repeat split; auto. intros [?|[v [[] _]]]; auto.
+  - destruct (matches v i) eqn:M.
+    + destruct (H v (or_introl eq_refl) M) as [D NL].
+      destruct (cached_aggregator_drop st i _ D NL) as [st1 [CA [DE NLs]]]. rewrite CA. cbn [orb].
+      destruct (IH st1 true) as [st' [m' [E [DE' Mt]]]].
+      { intros v' Hv' Mv'. destruct (H v' (or_intror Hv') Mv') as [D' NL']. split; [exact D' | now apply NLs]. }
+      exists st', m'. split; [exact E|]. split; [congruence|].
+      split; [intros _; right; exists v; split; [now left | exact M] | intros _; apply Mt; now left].
+    + destruct (IH st m) as [st' [m' [E [DE' Mt]]]].
+      { intros v' Hv' Mv'. apply H; [now right | exact Mv']. }
+      exists st', m'. split; [exact E|]. split; [exact DE'|]. rewrite Mt. split.
+      * intros [?|[v' [Hv' Mv']]]; [now left | right; exists v'; split; [now right | exact Mv']].
+      * intros [?|[v' [[->|Hv'] Mv']]]; [now left | congruence | right; now exists v'].
+Qed.
+
+Lemma insert_drop vs i st :
+  (exists v, In v vs /\ matches v i = true) ->
+  (forall v, In v vs -> matches v i = true -> req_drops i (mask v i) /\ not_live st (ident i (mask v i))) ->
+  exists st', insert vs i st = (st', []) /\ ps_decls st' = ps_decls st.
+Proof.
+  intros Ex H. destruct (insert_views_drop vs i st false H) as [st' [m' [E [DE Mt]]]].
+  assert (m' = true) by (apply Mt; now right). subst m'.
+  exists st'. split; [|exact DE]. unfold insert, insert_raw. rewrite E. now rewrite andb_false_r.
+Qed.
+
+(** An instrument that feeds no aggregator leaves every aggregator untouched. *)
+Lemma dispatch_nil cfgs a v sts : dispatch cfgs [] a v sts = sts.
+Proof. reflexivity. Qed.
+
+(** ** k matching views with pairwise distinct, not yet known stream identities yield k aggregators *)
+Definition vid (i : inst) (v : view) : sid := ident i (mask v i).
+
+Lemma insert_views_count vs i : forall st seen m e st' seen' m' e',
+  insert_views vs i st seen m e = (st', seen', m', e') ->
+  (forall j, In j seen -> (j < length (ps_decls st))%nat) ->
+  (forall v, In v vs -> matches v i = true ->
+     req_compatible i (mask v i) = true /\ req_akind i (mask v i) <> None /\
+     cache_lookup (vid i v) (ps_cache st) = None) ->
+  NoDup (map (vid i) (filter (fun v => matches v i) vs)) ->
+  length seen' = (length seen + length (filter (fun v => matches v i) vs))%nat /\ e' = e.
+Proof.
+  induction vs as [|v vs IH]; intros st seen m e st' seen' m' e' H Hs Hv ND; cbn [insert_views filter] in *.
+  - inversion H; subst. cbn. split; [lia | reflexivity].
+  - destruct (matches v i) eqn:M.
+    + destruct (Hv v (or_introl eq_refl) M) as [C [A CL]]. unfold vid in CL.
+      unfold cached_aggregator in H. rewrite C, CL in H. cbn [negb] in H.
+      destruct (req_akind i (mask v i)) as [ak|] eqn:AK; [|congruence].
+      assert (NM : nmem (length (ps_decls st)) seen = false).
+      { apply nmem_not_In. intro I. apply Hs in I. lia. }
+      rewrite NM, orb_false_r in H.
+      cbn [map] in ND. inversion ND as [|? ? Nin ND']; subst.
+      apply IH in H; [|cbn [ps_decls] | cbn [ps_cache] | exact ND'].
+      * destruct H as [HL He]. rewrite app_length in HL. cbn [length] in *. split; [lia | exact He].
+      * intros j Hj. rewrite app_length. cbn [length]. apply in_app_or in Hj as [Hj|[<-|[]]]; [apply Hs in Hj|]; lia.
+      * intros v' Hv' Mv'. destruct (Hv v' (or_intror Hv') Mv') as [C' [A' CL']]. split; [exact C'|]. split; [exact A'|].
+        rewrite cache_lookup_app, CL'.
+        destruct (sid_eqb (vid i v') (ident i (mask v i))) eqn:S; [|reflexivity].
+        apply sid_eqb_eq in S. exfalso. apply Nin. apply in_map_iff. exists v'. split; [exact S|].
+        apply filter_In. split; assumption.
+    + eapply IH; [exact H | exact Hs | | exact ND].
+      intros v' Hv' Mv'. apply Hv; [now right | exact Mv'].
+Qed.
+
+(** ** The statements about one instrument inserted into a pipeline *)
+Lemma insert_raw_views vs i st st' feeds err :
+  cache_wf st -> insert_raw vs i st = (st', feeds, err) ->
+  NoDup feeds /\ cache_wf st' /\
+  forall v, In v vs -> matches v i = true -> req_compatible i (mask v i) = true ->
+    exists o, cache_lookup (vid i v) (ps_cache st') = Some o /\ forall j, o = Some j -> In j feeds.
+Proof.
+  intros W H. split; [eapply insert_raw_nodup; eauto|].
+  unfold insert_raw in H.
+  destruct (insert_views vs i st [] false false) as [[[st1 seen] m] e] eqn:E.
+  destruct (insert_views_served _ _ _ _ _ _ _ _ _ _ E) as [Mo [Wf [_ [Mt Sv]]]].
+  destruct m.
+  - inversion H; subst. split; [auto | exact Sv].
+  - destruct (cached_aggregator st1 i (default_req i)) as [[st2 o] e2] eqn:CA. inversion H; subst.
+    destruct (cached_aggregator_spec _ _ _ _ _ _ CA) as [_ [Wf2 _]]. split; [auto|].
+    intros v Hv Mv _. exfalso.
+    assert (false = true) by (apply Mt; right; now exists v). discriminate.
+Qed.
+
+Lemma insert_raw_default vs i st st' feeds err :
+  insert_raw vs i st = (st', feeds, err) ->
+  (forall v, In v vs -> matches v i = false) -> req_compatible i (default_req i) = true ->
+  exists o, cache_lookup (ident i (default_req i)) (ps_cache st') = Some o /\
+            feeds = match o with Some j => [j] | None => [] end.
+Proof.
+  intros H NM C. unfold insert_raw in H.
+  destruct (insert_views vs i st [] false false) as [[[st1 seen] m] e] eqn:E.
+  destruct (insert_views_served _ _ _ _ _ _ _ _ _ _ E) as [_ [_ [_ [Mt _]]]].
+  destruct m.
+  - exfalso. destruct (proj1 Mt eq_refl) as [X|[v [Hv Mv]]]; [discriminate | rewrite (NM v Hv) in Mv; discriminate].
+  - destruct (cached_aggregator st1 i (default_req i)) as [[st2 o] e2] eqn:CA. inversion H; subst.
+    destruct (cached_aggregator_spec _ _ _ _ _ _ CA) as [_ [_ [_ Co]]]. destruct (Co C) as [_ CL].
+    exists o. split; [exact CL | reflexivity].
+Qed.
+
+Lemma insert_raw_count vs i feeds st' err :
+  insert_raw vs i p_empty = (st', feeds, err) ->
+  (exists v, In v vs /\ matches v i = true) ->
+  (forall v, In v vs -> matches v i = true -> req_compatible i (mask v i) = true /\ req_akind i (mask v i) <> None) ->
+  NoDup (map (vid i) (filter (fun v => matches v i) vs)) ->
+  length feeds = length (filter (fun v => matches v i) vs) /\ err = false.
+Proof.
+  intros H [v0 [Hv0 Mv0]] Hc ND. unfold insert_raw in H.
+  destruct (insert_views vs i p_empty [] false false) as [[[st1 seen] m] e] eqn:E.
+  destruct (insert_views_served _ _ _ _ _ _ _ _ _ _ E) as [_ [_ [_ [Mt _]]]].
+  assert (m = true) by (apply Mt; right; now exists v0). subst m. inversion H; subst.
+  apply insert_views_count in E; [exact E | intros j [] | | exact ND].
+  intros v Hv Mv. destruct (Hc v Hv Mv) as [C A]. split; [exact C|]. split; [exact A | reflexivity].
+Qed.
+
+(** * Observable sums with delta temporality (known finding F-C12-1) *)
+Lemma sum_override_notin ks k0 z (g : aset -> Z) : ~ In k0 ks ->
+  zsum (map (fun k => if aset_eqb k k0 then z else g k) ks) = zsum (map g ks).
+Proof.
+  induction ks as [|k ks IH]; intro N; cbn [map zsum]; [reflexivity|].
+  assert (E : aset_eqb k k0 = false) by (apply aset_eqb_neq; intro; subst; apply N; now left).
+  rewrite E, IH; [reflexivity | intro; apply N; now right].
+Qed.
+
+Lemma sum_override ks k0 z (g : aset -> Z) : NoDup ks -> In k0 ks ->
+  zsum (map (fun k => if aset_eqb k k0 then z else g k) ks) = (z + zsum (map g ks) - g k0)%Z.
+Proof.
+  induction ks as [|k ks IH]; intros ND I; [destruct I|]. inversion ND; subst. cbn [map zsum].
+  destruct I as [->|I].
+  - rewrite aset_eqb_refl, sum_override_notin by assumption. lia.
+  - assert (E : aset_eqb k k0 = false) by (apply aset_eqb_neq; intro; subst; contradiction).
+    rewrite E, IH by assumption. lia.
+Qed.
+
+Lemma zlookup_notin k rep : ~ In k (map fst rep) -> zlookup k rep = 0%Z.
+Proof.
+  induction rep as [|[k' z] r IH]; cbn [zlookup map fst]; intro N; [reflexivity|].
+  assert (E : aset_eqb k k' = false) by (apply aset_eqb_neq; intro; subst; apply N; now left).
+  rewrite E. apply IH. intro; apply N; now right.
+Qed.
+
+Lemma zlookup_sum ks rep : NoDup ks -> NoDup (map fst rep) -> incl (map fst rep) ks ->
+  zsum (map (fun k => zlookup k rep) ks) = zsum (map snd rep).
+Proof.
+  intros NK. induction rep as [|[k0 z] r IH]; intros NR I; cbn [zlookup map fst snd zsum].
+  - clear NK NR I. induction ks as [|k ks IHk]; cbn [map zsum]; [reflexivity | now rewrite IHk].
+  - cbn [map fst] in NR. inversion NR; subst.
+    rewrite (sum_override ks k0 z (fun k => zlookup k r)); [|exact NK | apply I; now left].
+    rewrite IH; [|assumption | intros x Hx; apply I; now right].
+    rewrite zlookup_notin by assumption. lia.
+Qed.
+
+Lemma total_delta_out vals rep :
+  total (map (fun kp : aset * point => (fst kp, ((fst (snd kp) - zlookup (fst kp) rep)%Z, snd (snd kp)))) vals)
+  = (total vals - zsum (map (fun k => zlookup k rep) (map fst vals)))%Z.
+Proof.
+  unfold total. induction vals as [|[k [s n]] r IH]; cbn [map zsum fst snd]; [reflexivity|]. rewrite IH. lia.
+Qed.
+
+Lemma grouped_keys_unlimited c w vals : s_limit c = 0 -> grouped c w vals ->
+  forall k, In k (map fst vals) <-> In k (sets_of c w).
+Proof.
+  intros L0 G k. rewrite (grouped_keys _ _ _ G), routed_keys. unfold sets_of.
+  rewrite (map_ext_in _ (fun x => x)); [now rewrite map_id|].
+  intros x Hx. apply dest_kept. rewrite L0. unfold kept. cbn. now apply dedup_In.
+Qed.
+
+Lemma forallb_incl (l1 l2 : list aset) :
+  forallb (fun a => amem a l2) l1 = true -> incl l1 l2.
+Proof. intros H x Hx. rewrite forallb_forall in H. apply amem_In. now apply H. Qed.
+
+Lemma presum_seq_ok c : is_presum_delta c = true -> s_limit c = 0 ->
+  forall h st cur prev,
+    grouped c cur (st_vals st) -> total (st_vals st) = zsum (map snd cur) ->
+    NoDup (map fst (st_rep st)) ->
+    (forall k, In k (map fst (st_rep st)) -> In k (sets_of c prev)) ->
+    zsum (map snd (st_rep st)) = zsum (map snd prev) ->
+    presum_conserved_seq c prev (windows_from true cur h) (s_run c h st) = true.
+Proof.
+  intros Hp L0 h.
+  assert (Hs : sums_values (s_kind c) = true) by (unfold is_presum_delta in Hp; destruct (s_kind c); try discriminate; reflexivity).
+  assert (Hr : resets c = true) by (unfold is_presum_delta in Hp; unfold resets; destruct (s_kind c); try discriminate; reflexivity).
+  induction h as [|e h IH]; intros st cur prev G T NR KR ZR; cbn [windows_from s_run presum_conserved_seq]; [reflexivity|].
+  destruct e as [a v|].
+  - apply IH; auto.
+    + rewrite s_measure_vals. now apply grouped_step.
+    + unfold s_measure. cbn [st_vals]. rewrite (total_upsert _ _ _ v) by (intro; now apply step_sum).
+      rewrite map_app, zsum_app, T. cbn. lia.
+  - unfold s_collect. rewrite Hp, Hr. cbn [presum_conserved_seq]. apply andb_true_iff. split.
+    + destruct (forallb (fun a => amem a (sets_of c cur)) (sets_of c prev)) eqn:Sub; [|reflexivity]. cbn [negb orb].
+      apply Z.eqb_eq. rewrite total_delta_out, zlookup_sum; [rewrite T, ZR; reflexivity | apply G | exact NR |].
+      intros k Hk. apply (grouped_keys_unlimited c cur _ L0 G). apply (forallb_incl _ _ Sub). now apply KR.
+    + apply IH; cbn [st_vals st_rep].
+      * apply grouped_nil.
+      * reflexivity.
+      * rewrite map_map. cbn [fst]. apply G.
+      * intros k Hk. rewrite map_map in Hk. cbn [fst] in Hk. now apply (grouped_keys_unlimited c cur _ L0 G).
+      * rewrite map_map. cbn [snd]. exact T.
+Qed.
+
+Lemma presum_delta_conserved_unlimited c h : s_limit c = 0 ->
+  presum_conserved_b c h (s_run c h s_empty) = true.
+Proof.
+  intro L0. unfold presum_conserved_b. destruct (is_presum_delta c) eqn:Hp; [|reflexivity]. cbn [negb orb].
+  unfold windows.
+  replace (resets c) with true by (unfold is_presum_delta in Hp; unfold resets; destruct (s_kind c); try discriminate; reflexivity).
+  apply presum_seq_ok; [exact Hp | exact L0 | exact (grouped_nil c) | reflexivity | constructor | intros k [] | reflexivity].
+Qed.
+
+(** * The boolean checker used on observations is sound for [placed] *)
+Lemma lookup_map_keys (g : aset -> point) ks k :
+  lookup k (map (fun k' => (k', g k')) ks) = if amem k ks then Some (g k) else None.
+Proof.
+  induction ks as [|x ks IH]; cbn [map lookup amem]; [reflexivity|].
+  destruct (aset_eqb k x) eqn:E; cbn [orb]; [apply aset_eqb_eq in E; now subst | exact IH].
+Qed.
+
+Lemma expected_points_placed c w : placed c w (expected_points c w).
+Proof.
+  unfold placed, expected_points. split.
+  - rewrite map_map. cbn [fst]. rewrite map_id. apply dedup_nodup.
+  - intro k. rewrite lookup_map_keys. unfold expected_at.
+    destruct (amem k (dedup (map fst (routed c w)))) eqn:E.
+    + apply amem_In in E. apply (proj1 (dedup_In _ _)) in E. destruct (vals_at k (routed c w)) eqn:V; [|reflexivity].
+      apply vals_at_nil in V. exfalso. exact (V E).
+    + apply amem_not_In in E. rewrite dedup_In in E. apply vals_at_nil in E. now rewrite E.
+Qed.
+
+Lemma kp_eqb_eq a b : kp_eqb a b = true <-> a = b.
+Proof.
+  destruct a as [k [v n]], b as [k' [v' n']]. unfold kp_eqb, kp_eqb_gen, point_eqb_gen. cbn [fst snd andb].
+  rewrite orb_false_r, !andb_true_iff, aset_eqb_eq, Z.eqb_eq, N.eqb_eq.
+  split; [intros [-> [-> ->]]; reflexivity | intro H; inversion H; auto].
+Qed.
+
+Lemma remove_first_perm {A} (eqb : A -> A -> bool) (He : forall a b, eqb a b = true -> a = b) x :
+  forall l l', remove_first eqb x l = Some l' -> Permutation l (x :: l').
+Proof.
+  induction l as [|y l IH]; intros l' H; cbn [remove_first] in H; [discriminate|].
+  destruct (eqb x y) eqn:E.
+  - apply He in E. inversion H; subst. apply Permutation_refl.
+  - destruct (remove_first eqb x l) as [r|] eqn:R; [|discriminate]. inversion H; subst.
+    apply perm_trans with (y :: x :: r); [apply perm_skip, IH; reflexivity | apply perm_swap].
+Qed.
+
+Lemma perm_eqb_perm {A} (eqb : A -> A -> bool) (He : forall a b, eqb a b = true -> a = b) :
+  forall a b, perm_eqb eqb a b = true -> Permutation a b.
+Proof.
+  induction a as [|x a IH]; intros b H; cbn [perm_eqb] in H.
+  - destruct b; [constructor | discriminate].
+  - destruct (remove_first eqb x b) as [b'|] eqn:R; [|discriminate].
+    apply (remove_first_perm eqb He) in R. apply Permutation_sym in R.
+    apply perm_trans with (x :: b'); [apply perm_skip, IH, H | exact R].
+Qed.
+
+Lemma lookup_perm (l1 l2 : points) : Permutation l1 l2 -> NoDup (map fst l1) ->
+  forall k, lookup k l1 = lookup k l2.
+Proof.
+  induction 1 as [|[k0 p0] l l' P IH|[k1 p1] [k2 p2] l|l l' l'' P1 IH1 P2 IH2]; intros ND k.
+  - reflexivity.
+  - cbn [lookup]. destruct (aset_eqb k k0); [reflexivity|]. apply IH. now inversion ND.
+  - cbn [lookup]. destruct (aset_eqb k k2) eqn:E2; destruct (aset_eqb k k1) eqn:E1; try reflexivity.
+    apply aset_eqb_eq in E1, E2. subst. cbn [map fst] in ND. inversion ND as [|? ? N1 _]. exfalso. apply N1. now left.
+  - rewrite IH1 by exact ND. apply IH2.
+    eapply Permutation_NoDup; [apply Permutation_map, P1 | exact ND].
+Qed.
+
+Lemma checker_sound c w pts : points_eqb (expected_points c w) pts = true -> placed c w pts.
+Proof.
+  intro H. apply (perm_eqb_perm kp_eqb (fun a b => proj1 (kp_eqb_eq a b))) in H.
+  destruct (expected_points_placed c w) as [ND P]. split.
+  - eapply Permutation_NoDup; [apply Permutation_map, H | exact ND].
+  - intro k. rewrite <- P. symmetry. now apply lookup_perm.
+Qed.
